@@ -156,6 +156,7 @@ type vc struct {
 	sentinelList []string
 	retBlock    *ssa.BasicBlock
 	frameCache  *frameSpec
+	heapValType map[string]types.Type
 	lastCall    []string
 	lastCallSig *types.Signature
 	loopEntry map[*ssa.BasicBlock]loopEntryInfo
@@ -336,6 +337,7 @@ func (v *vc) heapAt(name string, epoch int) string {
 	if ei.fresh {
 		t = q(key)
 		v.decl(t, sort)
+		v.heapAxiom(t, name)
 	} else {
 		// merge epoch: ite over parts
 		terms := make([]string, len(ei.parts))
@@ -383,22 +385,50 @@ func (v *vc) fieldHeap(st types.Type, fi int) (name, sort string) {
 	s := st.Underlying().(*types.Struct)
 	name = "H " + typeKey(st) + "." + s.Field(fi).Name()
 	sort = fmt.Sprintf("(Array Int %s)", v.sc.sortOf(s.Field(fi).Type()))
-	v.regHeap(name, sort)
+	v.regHeapT(name, sort, s.Field(fi).Type())
 	return
 }
 
 func (v *vc) elemHeap(et types.Type) (name, sort string) {
 	name = "A " + typeKey(et)
 	sort = fmt.Sprintf("(Array Int (Array Int %s))", v.sc.sortOf(et))
-	v.regHeap(name, sort)
+	v.regHeapT(name, sort, et)
 	return
 }
 
 func (v *vc) cellHeap(et types.Type) (name, sort string) {
 	name = "P " + typeKey(et)
 	sort = fmt.Sprintf("(Array Int %s)", v.sc.sortOf(et))
-	v.regHeap(name, sort)
+	v.regHeapT(name, sort, et)
 	return
+}
+
+func (v *vc) regHeapT(name, sort string, valType types.Type) {
+	v.regHeap(name, sort)
+	if v.heapValType == nil {
+		v.heapValType = map[string]types.Type{}
+	}
+	if _, ok := v.heapValType[name]; !ok {
+		v.heapValType[name] = valType
+	}
+}
+
+// heapAxiom states, for a freshly introduced heap constant, that every value stored in it satisfies the
+// invariant of its Go type (slices well-formed, integers in range, ...): memory is typed.
+func (v *vc) heapAxiom(constName, heapName string) {
+	t := v.heapValType[heapName]
+	if t == nil {
+		return
+	}
+	if strings.HasPrefix(heapName, "A ") {
+		if inv := v.sc.typeInv(fmt.Sprintf("(select (select %s a) i)", constName), t); inv != "" {
+			v.rawFact(fmt.Sprintf("(forall ((a Int) (i Int)) (! %s :pattern ((select (select %s a) i))))", inv, constName))
+		}
+		return
+	}
+	if inv := v.sc.typeInv(fmt.Sprintf("(select %s r)", constName), t); inv != "" {
+		v.rawFact(fmt.Sprintf("(forall ((r Int)) (! %s :pattern ((select %s r))))", inv, constName))
+	}
 }
 
 func (v *vc) globalHeap(g string, t types.Type) (name, sort string) {
